@@ -16,27 +16,13 @@ def alloc_func(ctx):
 
 
 def permutation_sorters(ctx):
-    """Module-level functions that return a sorted permutation of their first parameter on every path (R11.1)."""
+    """Module-level sort functions that return a sorted permutation of their first parameter for every rule member (R11.1)."""
+    from .sorters import is_permutation_sorter, mode_param
     out = {}
     for name, f in ctx.repo.functions.items():
-        if not f.params:
+        if not name.startswith("sort_") or len(f.params) < 2 or mode_param(f) not in f.defaults:
             continue
-        p0 = f.params[0]
-        ok, n = True, 0
-        for node in ast.walk(f.node):
-            if isinstance(node, ast.Return) and ctx.types.ftypes(f).owner_func(node) is f.node:
-                if not (isinstance(node.value, ast.Name) and node.value.id == p0):
-                    ok = False
-            if isinstance(node, ast.Assign) and any(isinstance(t, ast.Name) and t.id == p0 for t in node.targets) and ctx.types.ftypes(f).owner_func(node) is f.node:
-                v = node.value
-                n += 1
-                if not (isinstance(v, ast.Call) and isinstance(v.func, ast.Name) and v.func.id == "sorted" and v.args and isinstance(v.args[0], ast.Name) and v.args[0].id == p0
-                        and len(v.args) == 1 and all(kw.arg in ("key", "reverse") for kw in v.keywords)):
-                    ok = False
-        if n and not any(isinstance(x, ast.Return) for x in ast.walk(f.node)):
-            ok = False
-        if n:
-            out[name] = ok
+        out[name] = is_permutation_sorter(ctx, name)
     return out
 
 
